@@ -44,6 +44,12 @@ var registry = map[string]*propDef{}
 // judge is a pure function of the case (no clock, no RNG, no map-order dependence).
 func defProp[C any](id, rule string, assumptions []string, draw func(*rapid.T) *C, judge func(*C, *Ctx) *Violation) {
 	safe := func(c *C, cx *Ctx) (v *Violation) {
+		if journalOn && outDir != "" && id != "C18" {
+			// second pass after a fatal runtime error (see rerunWithJournal in the driver)
+			raw, _ := json.Marshal(c)
+			b, _ := json.Marshal(failureFile{Property: id, Msg: "journal", Case: raw})
+			_ = os.WriteFile(filepath.Join(outDir, "journal."+shardTag+".json"), b, 0o644)
+		}
 		if id != "C03" && id != "C13" && id != "C18" { // those arm it themselves / run under -race
 			watchdogArmFor(id, c, 90*time.Second)
 			defer watchdogDisarm()
@@ -93,6 +99,9 @@ var (
 	curStats *kit.Stats
 	outDir   = os.Getenv("VERIF_OUT")
 	shardTag = envOr("VERIF_SHARD", "0")
+	// journalOn: write every case to disk before judging it (set by the driver when it repeats a
+	// shard whose process was killed by the Go runtime)
+	journalOn = os.Getenv("VERIF_JOURNAL") != ""
 )
 
 func envOr(k, d string) string {
